@@ -1,4 +1,5 @@
 import GitSizer.Model.ScanProto
+import GitSizer.Proofs.Pipeline3
 import GitSizer.Proofs.Pipeline2
 import GitSizer.Gen.Flows
 import GitSizer.Gen.Cmds
@@ -282,6 +283,28 @@ example : ∃ s, Reach (init (some 0) 1 1 1 1 1 false) s ∧ s.main = .done ∧ 
   have r20 := Reach.step r19 (Step.mainWaitOk _ rfl rfl rfl rfl rfl rfl rfl)
   have r21 := Reach.step r20 (Step.mainErrchan _ rfl (by decide))
   exact ⟨_, r21, rfl, rfl⟩
+
+
+open GitSizer.Pipeline3 in
+/-- the same for the three-stage pipeline of the object-contents phases (`git/batch_obj_iter.go`):
+    **no deadlock** and **it returns on every run**, for every number of requests and both pipe capacities -/
+theorem batch_phase_never_hangs (requests : Option Nat) (ca cd : Nat) (ha : 0 < ca) (hd : 0 < cd)
+    (s : St) (hr : Reach (init requests ca cd) s) :
+    (s.main ≠ .done → ∃ s', Step s s') ∧ Returns s :=
+  have hi := inv_reach (inv_init requests ca cd ha hd) hr
+  ⟨progress hi, returns_of_inv (mu s) s (Nat.le_refl _) hi⟩
+
+/-- **the models have the pipelines' shape**, REGENERATED: the listing pipeline is
+    goroutine → `git rev-list` → goroutine → `git cat-file` → goroutine (five stages, `Model/Pipeline`),
+    the contents pipeline goroutine → `git cat-file` → goroutine (three stages, `Model/Pipeline3`); the
+    reference pipeline (`git for-each-ref` → goroutine, no feeder) is the last two links of the same chain
+    and is not modelled separately -/
+theorem pipelines_have_the_modelled_shape :
+    Gen.Cmds.pipelineStages =
+      [("git/obj_iter.go", [("Function", "request-objects"), ("CommandStage", "git-rev-list"), ("LinewiseFunction", "copy-oids"),
+                            ("CommandStage", "git-cat-file"), ("Function", "object-parser")]),
+       ("git/batch_obj_iter.go", [("Function", "request-objects"), ("CommandStage", "git-cat-file"), ("Function", "object-reader")]),
+       ("git/ref_iter.go", [("CommandStage", "git-for-each-ref"), ("Function", "parse-refs")])] := by decide
 
 
 end GitSizer.C10
